@@ -16,6 +16,7 @@ REQUIRED = ['op:+', 'op:-', 'op:^', 'op:&', 'op:|', 'op:neg', 'op:<<', 'op:>>', 
 NSHARDS = 13
 SAN = {'quick': (3, 8), 'thorough': (3, 4)}
 S3_EVERY = 50
+S7 = ('thorough',)          # the repository's own suite re-run under S1/S3 as a second workload
 
 def selftest():
     assert m_op('+', [3, 1], [1], 2) == [0, 1] and m_op('-', [0], [1, 1], 2) == [3, 3] and m_op('+', [], [], 3) == []
